@@ -1,3 +1,477 @@
-/- Model for C18: not written yet -/
+/-
+Model of external authentication in the ingress converter and the template (C18):
+
+* `pkg/haproxy/types/frontend.go`   `AcquireAuthBackendName`, `RemoveAuthBackendExcept`,
+  `RemoveAuthBackendByTarget`                                   → `scan`, `acquire`, `removeExcept`
+* `pkg/converters/ingress/annotations/backend.go`
+    `setAuthExternal`                                           → `resolveTarget`, `setAuth`
+    `buildBackendAuthExternal`                                  → `authStep`
+    `buildBackendOAuth`                                         → `oauthRec`, `oauthStep`
+* `pkg/converters/ingress/annotations/host.go` `buildHostAuthExternal` → `hostPhase`, `frontStep`
+* `pkg/converters/ingress/annotations/mapper.go` `Mapper.Get` / `KeyConfig.Get` for the keys
+  auth-url, auth-external-placement, auth-signin           → `firstUrl`, `firstPlc`, `ownPlc`
+* `pkg/converters/ingress/ingress.go` `fullSyncAnnotations` (hosts, then backends)  → `run`
+* `pkg/haproxy/types/backend.go` `createPathConfig`, `PathIDs`  → `addGroup`, `groupsOf`
+* `rootfs/etc/templates/haproxy/haproxy.tmpl` `authExternal`, `authExternalFrontend` and the
+  backend block that calls it                                   → `rulesOf`, `backendRules`, `frontRules`
+
+The validation of one auth-url is abstracted to its outcomes (`Url`); everything after that is
+the control flow of the Go code on the shared per-path record.  `fixed` selects the behaviour of
+`buildBackendOAuth`: `false` = precedence test on the backend-wide `d.mapper.Get(auth-url)` that
+clears `AlwaysDeny`; `true` = precedence test on the path's own value that restores what
+auth-url left on the record.  Core-only.
+-/
 namespace HapVerif.C18
+
+/-! ## auth-proxy ports (`Frontend.AuthProxy`) -/
+
+/-- `AuthProxyBind`: `LocalPort` (the name is `_auth_<port>`, the socket id `10000+port`) and the
+backend the helper frontend forwards to -/
+structure Bind where
+  port : Int
+  target : Nat
+deriving Repr, DecidableEq
+
+inductive Scan where
+  | found (port : Int)
+  | free (port : Int)
+deriving Repr, DecidableEq
+
+/-- the loop of `AcquireAuthBackendName` over `proxy.BindList` -/
+def scan (t : Nat) : List Bind → Int → Scan
+  | [], free => .free free
+  | b :: bs, free =>
+    if b.target = t then .found b.port
+    else scan t bs (if free = b.port then free + 1 else free)
+
+/-- `append` + `sort.Slice(LocalPort <)` on a list that is strictly sorted and does not hold the
+new port (every reachable list is, `acquire_sorted`) -/
+def insertBind (n : Bind) : List Bind → List Bind
+  | [] => [n]
+  | b :: bs => if n.port < b.port then n :: b :: bs else b :: insertBind n bs
+
+/-- `AcquireAuthBackendName`: `none` = error "auth proxy list is full" -/
+def acquire (binds : List Bind) (rs re : Int) (t : Nat) : Option Int × List Bind :=
+  match scan t binds rs with
+  | .found p => (some p, binds)
+  | .free f => if f > re then (none, binds) else (some f, insertBind ⟨f, t⟩ binds)
+
+/-- `RemoveAuthBackendExcept(used)` (names and ports correspond one to one) -/
+def removeExcept (used : List Int) (binds : List Bind) : List Bind :=
+  binds.filter fun b => used.contains b.port
+
+/-- `RemoveAuthBackendByTarget(backends)` -/
+def removeByTarget (ts : List Nat) (binds : List Bind) : List Bind :=
+  binds.filter fun b => !ts.contains b.target
+
+/-! ## annotation values, abstracted -/
+
+inductive Proto where
+  | http | https | svc | other
+deriving Repr, DecidableEq
+
+/-- what `setAuthExternal` learns about one non-empty auth-url value -/
+structure Url where
+  parseOk : Bool      -- `ingutils.ParseURL` succeeds
+  proto : Proto       -- http | https | service/svc | anything else
+  isIP : Bool         -- http(s): host is an IP literal (no lookup)
+  dnsOk : Bool        -- http(s): `lookupHost` succeeds
+  hasPort : Bool      -- svc: port present
+  hasNs : Bool        -- svc: namespace given or taken from the source object
+  svcFound : Bool     -- svc: `FindBackend` finds the service backend
+  target : Nat        -- identity of the backend the URL designates (auth backend key / service backend)
+  path : String       -- urlPath ("" is replaced by "/")
+deriving Repr, DecidableEq
+
+inductive UrlAnn where
+  | absent            -- key not registered for the path
+  | empty             -- registered with the empty string
+  | val (u : Url)
+deriving Repr, DecidableEq
+
+def UrlAnn.nonEmpty : UrlAnn → Bool
+  | .val _ => true
+  | _ => false
+
+/-- auth-external-placement after `ToLower` -/
+inductive Plc where
+  | absent | backend | frontend | other
+deriving Repr, DecidableEq
+
+/-- oauth annotation: implementation name accepted?, `findBackend(namespace, uriPrefix)` found a
+backend?, the uri prefix and the id of that backend -/
+inductive OAuthAnn where
+  | absent
+  | val (implOk found : Bool) (pfx : String) (backend : String)
+deriving Repr, DecidableEq
+
+structure PathIn where
+  host : Nat
+  backend : Nat
+  ord : Nat           -- position of the path in `Backend.Paths` order (hostname, path)
+  key : String        -- `PathLink.Key()` = `<host>#<path>`; also the request base equal to the path
+  hamatch : String    -- `PathLink.HAMatch()`: str | dir | beg
+  sub : String        -- a request base below the path (= key for an exact path)
+  url : UrlAnn
+  plc : Plc
+  oauth : OAuthAnn
+  signin : Bool       -- auth-signin present (and valid)
+deriving Repr, DecidableEq
+
+structure World where
+  isExternal : Bool
+  hasLua : Bool
+  rangeStart : Int
+  rangeEnd : Int
+  paths : List PathIn   -- in the order the ingresses register them
+deriving Repr
+
+/-! ## the per-path record -/
+
+inductive AuthName where
+  | none
+  | proxy (port : Int)       -- `_auth_<port>`
+  | backend (id : String)    -- oauth: id of the oauth2-proxy backend
+deriving Repr, DecidableEq
+
+/-- `hatypes.AuthExternal`, fields that decide the rendered rules (headers and method follow
+from which branch filled the record) -/
+structure AuthRec where
+  alwaysDeny : Bool := false
+  name : AuthName := .none
+  authPath : String := ""
+  allowedPath : String := ""
+  redirect : Bool := false
+deriving Repr, DecidableEq
+
+/-! ## `setAuthExternal` -/
+
+/-- everything between `auth.AlwaysDeny = true` and `AcquireAuthBackendName`: the backend the
+URL resolves to, `none` on any early return -/
+def resolveTarget (ext lua : Bool) (u : Url) : Option Nat :=
+  if ext && !lua then none
+  else if !u.parseOk then none
+  else match u.proto with
+    | .http | .https => if u.isIP || u.dnsOk then some u.target else none
+    | .svc =>
+      if !u.hasPort then none
+      else if !u.hasNs then none
+      else if !u.svcFound then none
+      else some u.target
+    | .other => none
+
+def normPath (s : String) : String := if s = "" then "/" else s
+
+def denyRec (r : AuthRec) : AuthRec := { r with alwaysDeny := true }
+
+def okRec (r : AuthRec) (p : Int) (u : Url) (signin : Bool) : AuthRec :=
+  { r with alwaysDeny := false, name := .proxy p, authPath := normPath u.path, redirect := signin }
+
+/-- result: record, bind list, "the clean-up branch ran" -/
+def setAuth (ext lua : Bool) (rs re : Int) (used : List Int) (binds : List Bind) (r0 : AuthRec)
+    (u : Url) (signin : Bool) : AuthRec × List Bind × Bool :=
+  match resolveTarget ext lua u with
+  | none => (denyRec r0, binds, false)
+  | some t =>
+    match acquire binds rs re t with
+    | (some p, b') => (okRec r0 p u signin, b', false)
+    | (none, _) =>
+      -- clean up and try again
+      let b1 := removeExcept used binds
+      match acquire b1 rs re t with
+      | (some p, b2) => (okRec r0 p u signin, b2, true)
+      | (none, _) => (denyRec r0, b1, true)
+
+/-! ## mapper reads -/
+
+/-- first registered value of auth-url among the given paths (`Mapper.Get`) -/
+def firstUrl : List PathIn → UrlAnn
+  | [] => .absent
+  | p :: r => if p.url = .absent then firstUrl r else p.url
+
+def firstPlc : List PathIn → Plc
+  | [] => .absent
+  | p :: r => if p.plc = .absent then firstPlc r else p.plc
+
+/-- default of auth-external-placement is `backend` -/
+def plcDefault : Plc → Plc
+  | .absent => .backend
+  | x => x
+
+def ownPlc (p : PathIn) : Plc := plcDefault p.plc
+
+def backendUrl (w : World) (b : Nat) : UrlAnn := firstUrl (w.paths.filter (·.backend = b))
+def hostUrl (w : World) (h : Nat) : UrlAnn := firstUrl (w.paths.filter (·.host = h))
+def hostPlc (w : World) (h : Nat) : Plc := plcDefault (firstPlc (w.paths.filter (·.host = h)))
+def hostSignin (w : World) (h : Nat) : Bool := (w.paths.filter (·.host = h)).any (·.signin)
+
+/-! ## state and steps -/
+
+def upd {α} (f : Nat → α) (i : Nat) (a : α) : Nat → α := fun j => if j = i then a else f j
+
+structure St where
+  binds : List Bind := []
+  brec : Nat → AuthRec := fun _ => {}          -- `BackendPath.AuthExternal` per path index
+  frec : Nat → Option AuthRec := fun _ => none -- `HostPath.AuthExt` per path index
+  cleaned : Bool := false
+
+/-- `Backends.BuildUsedAuthBackends`: only the records of backend paths are looked at -/
+def usedPorts (n : Nat) (brec : Nat → AuthRec) : List Int :=
+  (List.range n).filterMap fun i =>
+    match (brec i).name with
+    | .proxy p => some p
+    | _ => none
+
+def frontStep (w : World) (u : Url) (signin : Bool) (st : St) (i : Nat) : St :=
+  let res := setAuth w.isExternal w.hasLua w.rangeStart w.rangeEnd
+    (usedPorts w.paths.length st.brec) st.binds {} u signin
+  { st with binds := res.2.1, frec := upd st.frec i (some res.1), cleaned := st.cleaned || res.2.2 }
+
+def idxsWhere (w : World) (f : PathIn → Bool) : List Nat :=
+  (List.range w.paths.length).filter fun i =>
+    match w.paths[i]? with
+    | some p => f p
+    | none => false
+
+/-- `buildHostAuthExternal` of one host: placement and URL are the host mapper's -/
+def hostPhase (w : World) (st : St) (h : Nat) : St :=
+  match hostPlc w h, hostUrl w h with
+  | .frontend, .val u => (idxsWhere w (·.host = h)).foldl (frontStep w u (hostSignin w h)) st
+  | _, _ => st
+
+/-- one iteration of `buildBackendAuthExternal` -/
+def authStep (w : World) (st : St) (i : Nat) : St :=
+  match w.paths[i]? with
+  | none => st
+  | some p =>
+    match ownPlc p, p.url with
+    | .backend, .val u =>
+      let res := setAuth w.isExternal w.hasLua w.rangeStart w.rangeEnd
+        (usedPorts w.paths.length st.brec) st.binds (st.brec i) u p.signin
+      { st with binds := res.2.1, brec := upd st.brec i res.1, cleaned := st.cleaned || res.2.2 }
+    | _, _ => st
+
+/-- one iteration of `buildBackendOAuth` on the record `r` left by the earlier builders -/
+def oauthRec (fixed : Bool) (w : World) (p : PathIn) (r : AuthRec) : AuthRec :=
+  match p.oauth with
+  | .absent => r                                        -- `oauth.Source == nil`
+  | .val implOk found pfx backend =>
+    if !implOk then denyRec r
+    else if w.isExternal && !w.hasLua then denyRec r
+    else if (if fixed then p.url.nonEmpty else (backendUrl w p.backend).nonEmpty) then
+      -- "auth-url was configured and has precedence"
+      (if fixed then r else { r with alwaysDeny := false })
+    else if !found then denyRec r
+    else
+      { alwaysDeny := false, name := .backend backend, allowedPath := pfx ++ "/",
+        authPath := pfx ++ "/auth", redirect := true }
+
+def oauthStep (fixed : Bool) (w : World) (st : St) (i : Nat) : St :=
+  match w.paths[i]? with
+  | none => st
+  | some p => { st with brec := upd st.brec i (oauthRec fixed w p (st.brec i)) }
+
+def ordOf (w : World) (i : Nat) : Nat :=
+  match w.paths[i]? with
+  | some p => p.ord
+  | none => 0
+
+def insertBy (key : Nat → Nat) (i : Nat) : List Nat → List Nat
+  | [] => [i]
+  | j :: r => if key i ≤ key j then i :: j :: r else j :: insertBy key i r
+
+/-- `sortPaths` (the keys hostname, path are distinct inside a backend) -/
+def sortBy (key : Nat → Nat) : List Nat → List Nat
+  | [] => []
+  | i :: r => insertBy key i (sortBy key r)
+
+/-- `Backend.Paths` of backend `b` (sorted by hostname, path) as path indices -/
+def backendIdxs (w : World) (b : Nat) : List Nat :=
+  sortBy (ordOf w) (idxsWhere w (·.backend = b))
+
+/-- `UpdateBackendConfig`: `buildBackendAuthExternal` over all paths, later `buildBackendOAuth` -/
+def backendPhase (fixed : Bool) (w : World) (st : St) (b : Nat) : St :=
+  (backendIdxs w b).foldl (oauthStep fixed w) ((backendIdxs w b).foldl (authStep w) st)
+
+/-- `fullSyncAnnotations`: every host, then every backend.  `Hosts().Items()` and
+`Backends().Items()` are Go maps: both orders are arbitrary (`hostOrder`, `backendOrder` list
+each host / backend once) -/
+def run (fixed : Bool) (w : World) (hostOrder backendOrder : List Nat) : St :=
+  backendOrder.foldl (backendPhase fixed w) (hostOrder.foldl (hostPhase w) {})
+
+/-! ## rendering -/
+
+inductive Rule where
+  | deny                                             -- `http-request deny [if <scope>]`
+  | icpt (name : AuthName) (path allowed : String)   -- `http-request lua.auth-intercept ...`
+  | unless (redir : Bool) (allowed : String)         -- deny / redirect `if !{ var(txn.auth_response_successful) -m bool }`
+deriving Repr, DecidableEq
+
+/-- template `authExternal` -/
+def rulesOf (r : AuthRec) : List Rule :=
+  if r.alwaysDeny then [.deny]
+  else match r.name with
+    | .none => []
+    | n => [.icpt n r.authPath r.allowedPath, .unless r.redirect r.allowedPath]
+
+/-- `createPathConfig` for the field AuthExternal: a path joins the first item with an equal
+config, else opens a new item -/
+def addGroup : List (AuthRec × List Nat) → Nat → AuthRec → List (AuthRec × List Nat)
+  | [], i, r => [(r, [i])]
+  | (r', ids) :: rest, i, r =>
+    if r' = r then (r', ids ++ [i]) :: rest else (r', ids) :: addGroup rest i r
+
+def groupsOf (brec : Nat → AuthRec) (idxs : List Nat) : List (AuthRec × List Nat) :=
+  idxs.foldl (fun gs i => addGroup gs i (brec i)) []
+
+/-- rules of the backend section that apply to path `i`: `PathIDs` is "" (no guard) unless the
+config needs an ACL (more than one item), else the ids of the item; `-m str` = membership -/
+def backendRules (brec : Nat → AuthRec) (idxs : List Nat) (i : Nat) : List Rule :=
+  let gs := groupsOf brec idxs
+  gs.flatMap fun g => if !(decide (gs.length > 1)) || g.2.contains i then rulesOf g.1 else []
+
+def isInfix (p s : List Char) : Bool :=
+  match s with
+  | [] => p.isEmpty
+  | c :: r => p.isPrefixOf (c :: r) || isInfix p r
+
+def trimSlash (s : String) : String :=
+  String.ofList ((s.toList.dropWhile (· = '/')).reverse.dropWhile (· = '/')).reverse
+
+/-- HAProxy ACL `<sample> -m <method> <pattern>...`: true when some pattern matches -/
+def aclMatch (meth : String) (pats : List String) (s : String) : Bool :=
+  if meth = "str" then pats.contains s
+  else if meth = "beg" then pats.any fun p => p.toList.isPrefixOf s.toList
+  else if meth = "dir" then pats.any fun p =>
+    isInfix ("/" ++ trimSlash p ++ "/").toList ("/" ++ trimSlash s ++ "/").toList
+  else false
+
+/-- `printf "{ var(req.base) -m str %s '%s' }" $path.Link.HAMatch $path.Link.Key` -/
+def frontCond (p : PathIn) : String × List String := ("str", [p.hamatch, p.key])
+
+/-- rules of the http frontends that apply to a request with base `s` -/
+def frontRules (w : World) (frec : Nat → Option AuthRec) (s : String) : List Rule :=
+  (List.range w.paths.length).flatMap fun i =>
+    match w.paths[i]?, frec i with
+    | some p, some r => if aclMatch (frontCond p).1 (frontCond p).2 s then rulesOf r else []
+    | _, _ => []
+
+/-- what the configuration does to path `i` -/
+structure Obs where
+  rb : List Rule     -- backend section, resolved for the path id
+  r0 : List Rule     -- frontends, request base = the path
+  r1 : List Rule     -- frontends, request base below the path
+deriving Repr, DecidableEq
+
+def obsOf (w : World) (st : St) (i : Nat) : Obs :=
+  match w.paths[i]? with
+  | none => ⟨[], [], []⟩
+  | some p =>
+    { rb := backendRules st.brec (backendIdxs w p.backend) i
+      r0 := frontRules w st.frec p.key
+      r1 := frontRules w st.frec p.sub }
+
+/-! ## Spec -/
+
+/-- the authentication call a path may legitimately be intercepted with -/
+inductive Want where
+  | proxy (target : Nat) (path : String)
+  | backend (id path allowed : String)
+deriving Repr, DecidableEq
+
+def placed (p : PathIn) : Bool := ownPlc p = .backend || ownPlc p = .frontend
+
+def declaredUrl (p : PathIn) : Bool := p.url.nonEmpty && placed p
+def declaredOAuth (p : PathIn) : Bool := p.oauth != .absent
+def declared (p : PathIn) : Bool := declaredUrl p || declaredOAuth p
+
+/-- the service of the path's own auth-url when it can be honoured, and of its own oauth
+declaration when the oauth2-proxy backend exists -/
+def wants (w : World) (p : PathIn) : List Want :=
+  (match p.url with
+   | .val u =>
+     if placed p then
+       match resolveTarget w.isExternal w.hasLua u with
+       | some t => [Want.proxy t (normPath u.path)]
+       | none => []
+     else []
+   | _ => []) ++
+  (match p.oauth with
+   | .val true true pfx b => [Want.backend b (pfx ++ "/auth") (pfx ++ "/")]
+   | _ => [])
+
+def targetOf (binds : List Bind) (port : Int) : Option Nat :=
+  (binds.find? fun b => b.port = port).map (·.target)
+
+/-- the rule list denies every request, or intercepts with one of the wanted services and
+denies/redirects unless the call succeeded (same exemption on both rules) -/
+def covered (binds : List Bind) (ws : List Want) : List Rule → Bool
+  | [.deny] => true
+  | [.icpt n path allowed, .unless _ allowed'] =>
+    allowed == allowed' &&
+    (match n with
+     | .proxy port =>
+       allowed == "" &&
+       (match targetOf binds port with
+        | some t => ws.contains (.proxy t path)
+        | none => false)
+     | .backend id => ws.contains (.backend id path allowed)
+     | .none => false)
+  | _ => false
+
+/-- **fail closed** for one path -/
+def pathOk (w : World) (binds : List Bind) (p : PathIn) (o : Obs) : Bool :=
+  !declared p || covered binds (wants w p) o.rb ||
+    (covered binds (wants w p) o.r0 && covered binds (wants w p) o.r1)
+
+def hasIcpt (rs : List Rule) : Bool := rs.any fun | .icpt .. => true | _ => false
+
+/-- root cause of a violation on path `p` (the key under which a finding is tracked), read off
+the mechanism the path relies on first: its own auth-url (backend, then frontend placement),
+else its oauth declaration -/
+def signature (w : World) (binds : List Bind) (p : PathIn) (o : Obs) : String :=
+  let ws := wants w p
+  if hasIcpt o.rb && !covered binds ws o.rb then "backend-intercept-by-foreign-auth-service"
+  else if p.url.nonEmpty && ownPlc p = .backend then
+    (if declaredOAuth p then "oauth-resets-deny-after-bad-auth-url" else "declared-path-no-rule")
+  else if p.url.nonEmpty && ownPlc p = .frontend then
+    (if o.r0 = [] then "frontend-placement-lost-on-host-conflict"
+     else if !covered binds ws o.r0 then
+       (if p.url = hostUrl w p.host then "frontend-intercept-through-reassigned-auth-proxy-port"
+        else "frontend-intercept-by-auth-url-of-another-ingress")
+     else if !covered binds ws o.r1 then "frontend-rule-misses-subpath-requests"
+     else "declared-path-no-rule")
+  else if p.url.nonEmpty then "oauth-skipped-for-auth-url-with-invalid-placement"
+  else if (backendUrl w p.backend).nonEmpty then "oauth-shared-backend-unprotected"
+  else "declared-path-no-rule"
+
+/-- priority of the signatures when several paths of one scenario fail (rarest root cause first) -/
+def sigRank (s : String) : Nat :=
+  if s = "backend-intercept-by-foreign-auth-service" then 0
+  else if s = "declared-path-no-rule" then 1
+  else if s = "frontend-intercept-through-reassigned-auth-proxy-port" then 2
+  else if s = "frontend-intercept-by-auth-url-of-another-ingress" then 3
+  else if s = "oauth-skipped-for-auth-url-with-invalid-placement" then 4
+  else if s = "frontend-placement-lost-on-host-conflict" then 5
+  else if s = "oauth-shared-backend-unprotected" then 6
+  else if s = "oauth-resets-deny-after-bad-auth-url" then 7
+  else 8
+
+def pickSig : List String → Option String
+  | [] => none
+  | s :: r =>
+    match pickSig r with
+    | none => some s
+    | some t => if sigRank t < sigRank s then some t else some s
+
+/-- Spec evaluated on observed rules and binds -/
+def oracle (w : World) (binds : List Bind) (obs : List Obs) : Option String :=
+  pickSig ((w.paths.zip obs).filterMap fun (p, o) =>
+    if pathOk w binds p o then none else some (signature w binds p o))
+
+/-- no port serves two targets, every port inside the range — on an observed bind list -/
+def bindsOk (rs re : Int) (binds : List Bind) : Bool :=
+  binds.all (fun b => rs ≤ b.port && b.port ≤ re) &&
+  (binds.map (·.port)).Nodup
+
 end HapVerif.C18
